@@ -228,7 +228,7 @@ class RngProxy(object):
             i = 0
         else:
             i = self.driver.decide('choice', [1.0 / n] * n, {'n': n, 'logpos': len(self.log)})
-        self.log.append(('choice', tuple(seq) if self.copy_pop else n, i))
+        self.log.append(('choice', seq if self.copy_pop == 'ref' else (tuple(seq) if self.copy_pop else n), i))
         return seq[i]
 
     def sample(self, population, k):
